@@ -71,9 +71,15 @@ def SPoint.dirty (p : SPoint) : Bool :=
 line-protocol comment. -/
 def SPoint.hashName (p : SPoint) : Bool := p.name.head? == some HASH
 
+/-- Clause of finding `stream-backslash-name`: the measurement, a tag key or value, or a field key contains a
+backslash (the line protocol has no escape for it in names; string field VALUES are not concerned). -/
+def SPoint.backslashName (p : SPoint) : Bool :=
+  p.name.contains BS || p.tags.any (fun kv => kv.1.contains BS || kv.2.contains BS) || p.fields.any (fun kv => kv.1.contains BS)
+
 /-- Key of the deviation that applies to a recorded point, if any. -/
 def SPoint.devKey (p : SPoint) : Option String :=
-  if p.dirty then some "stream-newline-framing" else if p.hashName then some "stream-hash-measurement" else none
+  if p.dirty then some "stream-newline-framing" else if p.hashName then some "stream-hash-measurement"
+  else if p.backslashName then some "stream-backslash-name" else none
 
 /-- Index and key of the first recorded point to which a deviation clause applies. -/
 def firstDev : List SPoint → Nat → Option (Nat × String)
